@@ -184,27 +184,12 @@ func (a Box3) MinMaxDist2(p v3.Vec) Interval {
 		maxDist2 = math.Max(maxDist2, d2)
 	}
 
-	// consider the faces (for the minimum)
-	withinX := a.Min.X < 0 && a.Max.X > 0
-	withinY := a.Min.Y < 0 && a.Max.Y > 0
-	withinZ := a.Min.Z < 0 && a.Max.Z > 0
-
-	if withinX && withinY && withinZ {
-		minDist2 = 0
-	} else {
-		if withinX && withinY {
-			d := math.Min(math.Abs(a.Max.Z), math.Abs(a.Min.Z))
-			minDist2 = math.Min(minDist2, d*d)
-		}
-		if withinX && withinZ {
-			d := math.Min(math.Abs(a.Max.Y), math.Abs(a.Min.Y))
-			minDist2 = math.Min(minDist2, d*d)
-		}
-		if withinY && withinZ {
-			d := math.Min(math.Abs(a.Max.X), math.Abs(a.Min.X))
-			minDist2 = math.Min(minDist2, d*d)
-		}
-	}
+	// consider the faces and edges (for the minimum)
+	// p is at the origin: the nearest point of the box is the origin clamped to the box
+	dx := math.Max(0, math.Max(a.Min.X, -a.Max.X))
+	dy := math.Max(0, math.Max(a.Min.Y, -a.Max.Y))
+	dz := math.Max(0, math.Max(a.Min.Z, -a.Max.Z))
+	minDist2 = math.Min(minDist2, dx*dx+dy*dy+dz*dz)
 
 	return Interval{minDist2, maxDist2}
 }
